@@ -157,6 +157,16 @@ impl Exec {
     /// evaluate an operation; panics propagate to the caller's guard
     pub fn eval(&mut self, op: &OpKind, args: &[usize]) -> Array {
         use OpKind::*;
+        if op.consumes_operand() {
+            // the closures of corgi::activation take the array by value: the handle moves into the call
+            let x = self.slots[args[0]].take().expect("dead slot");
+            let f = match op {
+                ActRelu => corgi::activation::relu(),
+                ActSigmoid => corgi::activation::sigmoid(),
+                _ => corgi::activation::softmax(),
+            };
+            return f(x);
+        }
         let a: Vec<&Array> = args.iter().map(|&h| self.slots[h].as_ref().expect("dead slot")).collect();
         match op {
             Add => a[0] + a[1],
@@ -178,6 +188,7 @@ impl Exec {
             Relu => a[0].relu(),
             Sigmoid => a[0].sigmoid(),
             Softmax => a[0].softmax(),
+            ActRelu | ActSigmoid | ActSoftmax => unreachable!(),
             CAdd | CMul | CScale(_) | CFused3 => {
                 let id = self.n_custom;
                 let (fw, bw) = custom_closures(op, id, Rc::clone(&self.log));
